@@ -2,11 +2,13 @@ use crate::engine::Tier;
 use serde_json::Value;
 
 pub mod c09;
+pub mod c11;
 pub mod c18;
 
 pub fn run(id: &str, tier: Tier) -> i32 {
     match id {
         "C09" => c09::run(tier),
+        "C11" => c11::run(tier),
         "C18" => c18::run(tier),
         _ => {
             println!("MACHINERY-ERROR unknown property {}", id);
@@ -18,6 +20,7 @@ pub fn run(id: &str, tier: Tier) -> i32 {
 pub fn replay(id: &str, case: &Value) -> i32 {
     match id {
         "C09" => c09::replay(case),
+        "C11" => c11::replay(case),
         "C18" => c18::replay(case),
         _ => {
             println!("MACHINERY-ERROR unknown property {}", id);
